@@ -46,6 +46,16 @@ Theorem C15_band_matrix_vector_partial : forall (row_major : bool) (L U dim : Z)
   adept_band_mv O row_major L U dim mem left_ptr (pack_offset (if row_major then BandR else BandC) L U dim) x0 incx i
   = band_mv_spec O row_major L U dim mem left_ptr (pack_offset (if row_major then BandR else BandC) L U dim) x0 incx i.
 Proof. exact (band_mv_correct O). Qed.
+
+(* band matrix x dense matrix (one ?gbmv per column of the right operand, start pointers and increments translated from
+   matmul_band): element (i, c) is the defining sum over the stored band, written at y0 + i*aoff0 + c*aoff1 *)
+Theorem C15_band_matrix_matrix_partial : forall (row_major : bool) (L U dim : Z) (mem : Z -> T) (left_ptr x0 roff0 roff1 i c : Z),
+  (0 <= L)%Z -> (0 <= U)%Z -> (0 <= i < dim)%Z ->
+  adept_band_mm O row_major L U dim mem left_ptr (pack_offset (if row_major then BandR else BandC) L U dim) x0 roff0 roff1 i c
+  = band_mm_spec O row_major L U dim mem left_ptr (pack_offset (if row_major then BandR else BandC) L U dim) x0 roff0 roff1 i c.
+Proof. exact (band_mm_correct O). Qed.
+Theorem C15_band_matrix_matrix_result_address : forall y0 aoff0 aoff1 i c, band_mm_result_addr y0 aoff0 aoff1 i c = (y0 + i * aoff0 + c * aoff1)%Z.
+Proof. exact band_mm_result_address. Qed.
 (* symmetric matrix (either storage orientation) x vector through ?symv: the triangle letter chosen in matmul_symmetric and the
    exchange made by the wrapper for row-major calls (both GENERATED from the sources) select exactly the triangle the
    symmetric engine stores; row i of the result is the full defining sum, for every n and every engine offset *)
@@ -76,6 +86,8 @@ Print Assumptions C15_symmetric_matrix_matrix_partial.
 Print Assumptions C15_symmetric_result_placement.
 Print Assumptions C15_symmetric_matrix_vector_partial.
 Print Assumptions C15_band_matrix_vector_partial.
+Print Assumptions C15_band_matrix_matrix_partial.
+Print Assumptions C15_band_matrix_matrix_result_address.
 Print Assumptions C15_dense_matrix_matrix_partial.
 Print Assumptions C15_result_placement.
 Print Assumptions C15_dense_matrix_vector_partial.
